@@ -14,6 +14,7 @@ import (
 
 func main() {
 	run := ev.Start("C01")
+	defer run.Guard()
 	gen2.Run(run)
 	gen1.Run(run)
 	run.Set("generations", []string{"v2", "root"})
